@@ -19,6 +19,8 @@ import (
 	"net"
 	"os"
 	"strconv"
+	"strings"
+	"sync"
 	"testing"
 	"time"
 
@@ -64,6 +66,12 @@ type Msg struct {
 	ReqTLS bool `json:"reqtls"`
 	TLSNo  bool `json:"tlsno"`
 	Quar   bool `json:"quar"`
+	// the MX refuses MAIL FROM of this message (451), the session stays healthy
+	MailFail bool `json:"mailfail"`
+	// the quarantine flag is raised between AddRcpt and the body call
+	QLate bool `json:"qlate"`
+	// the body is handed over through PartialDelivery.BodyNonAtomic
+	NA bool `json:"na"`
 }
 
 type Behaviour struct {
@@ -121,6 +129,7 @@ type world struct {
 	servers []*scripted.SMTPServer
 	dns     *scripted.DNSServer
 	gate    *dnsGate
+	msgs    []Msg
 	tgt     *remote.Target
 }
 
@@ -182,6 +191,20 @@ func buildWorld(t *testing.T, c Cfg, tr *vtrace.Tracer) *world {
 		}
 		w.servers = append(w.servers, srv)
 		w.net.Add(host, srv)
+		srv.SetSelect(func(from string, n int) *scripted.SMTPTxn {
+			// sender "m<k>@sender.example.org" identifies message k of the history
+			k := 0
+			for _, ch := range strings.TrimPrefix(from, "m") {
+				if ch < '0' || ch > '9' {
+					break
+				}
+				k = k*10 + int(ch-'0')
+			}
+			if k >= 1 && k <= len(w.msgs) && w.msgs[k-1].MailFail {
+				return &scripted.SMTPTxn{Mail: scripted.SMTPReply{Code: 451, Enh: "4.7.1"}}
+			}
+			return nil
+		})
 		domZone.MX = append(domZone.MX, net.MX{Host: host + ".", Pref: uint16(10 * i)})
 		tlsaZone := func(class string) (scripted.DNSZone, bool) {
 			switch class {
@@ -345,6 +368,7 @@ func runBehaviour(t *testing.T, b Behaviour, out *bufio.Writer) {
 	tr := vtrace.New(out, b.ID)
 	tr.Emit("Cfg", cfgEvent(b.Cfg))
 	w := buildWorld(t, b.Cfg, tr)
+	w.msgs = b.Msgs
 	defer w.close()
 	ctx, cancel := context.WithTimeout(context.Background(), harnessBudget)
 	defer cancel()
@@ -358,7 +382,8 @@ func runBehaviour(t *testing.T, b Behaviour, out *bufio.Writer) {
 			Quarantine:         m.Quar,
 		}
 		w.gate.reset()
-		tr.Emit("Msg", vtrace.Ev{"m": i + 1, "reqtls": m.ReqTLS, "tlsno": m.TLSNo, "quar": m.Quar})
+		tr.Emit("Msg", vtrace.Ev{"m": i + 1, "reqtls": m.ReqTLS, "tlsno": m.TLSNo, "quar": m.Quar,
+			"mailfail": m.MailFail, "qlate": m.QLate, "na": m.NA})
 		d, err := w.tgt.Start(ctx, meta, from)
 		if err != nil {
 			t.Fatalf("behaviour %d: Start failed: %v", b.ID, err)
@@ -372,8 +397,24 @@ func runBehaviour(t *testing.T, b Behaviour, out *bufio.Writer) {
 			d.Abort(ctx)
 			continue
 		}
-		err = d.Body(ctx, testHeader(), buffer.MemoryBuffer{Slice: []byte("hello\r\n")})
-		tr.Emit("Ret", vtrace.Ev{"op": "body", "res": class(err), "err": errText(err)})
+		if m.QLate {
+			// what msgpipeline's checkRunner.applyResults does after a body-stage check
+			meta.Quarantine = true
+			tr.Emit("Quar", vtrace.Ev{})
+		}
+		body := buffer.MemoryBuffer{Slice: []byte("hello\r\n")}
+		if m.NA {
+			pd, ok := d.(module.PartialDelivery)
+			if !ok {
+				t.Fatalf("behaviour %d: %T is not a PartialDelivery", b.ID, d)
+			}
+			rec := &naStatus{}
+			pd.BodyNonAtomic(ctx, rec, testHeader(), body)
+			err = rec.first()
+		} else {
+			err = d.Body(ctx, testHeader(), body)
+		}
+		tr.Emit("Ret", vtrace.Ev{"op": "body", "res": class(err), "err": errText(err), "na": m.NA})
 		if err != nil {
 			d.Abort(ctx)
 			continue
@@ -391,6 +432,29 @@ func runBehaviour(t *testing.T, b Behaviour, out *bufio.Writer) {
 	if w.net.TimedOut || w.gate.TimedOut() || time.Since(start) > harnessBudget || ctx.Err() != nil {
 		t.Fatalf("HARNESS-TIMEOUT behaviour %d took %v", b.ID, time.Since(start))
 	}
+}
+
+// naStatus collects the per-recipient results of BodyNonAtomic (one recipient here).
+type naStatus struct {
+	mu   sync.Mutex
+	errs []error
+}
+
+func (n *naStatus) SetStatus(rcptTo string, err error) {
+	n.mu.Lock()
+	defer n.mu.Unlock()
+	n.errs = append(n.errs, err)
+}
+
+func (n *naStatus) first() error {
+	n.mu.Lock()
+	defer n.mu.Unlock()
+	for _, e := range n.errs {
+		if e != nil {
+			return e
+		}
+	}
+	return nil
 }
 
 func errText(err error) string {
